@@ -4,7 +4,7 @@ import ast, importlib, os, sys, time, traceback, types
 from . import sym as S
 from .sym import (Ctx, ConcreteCtx, Unsupported, PathInfeasible, PathEnd, SInt, SBool)
 from .interp import Interp, Policy, ProgExc, IFunc, IBound, SourceIndex, deep_concrete
-from .contract import Contract, Args, REGISTRY
+from .contract import Contract, Args, REGISTRY, FRAME_LABEL, module_fingerprint, module_writes
 
 
 def repo_root():
@@ -292,6 +292,7 @@ def run_path(c: Contract, prefix, timeout_ms, root, src_index, res: TargetResult
                 ctx.assume(p(a))
             a.exc = None
             a.result = None
+            fp0 = module_fingerprint()
             try:
                 if c.entry is not None:
                     a.result = c.entry(g, it, fn, a)
@@ -305,6 +306,8 @@ def run_path(c: Contract, prefix, timeout_ms, root, src_index, res: TargetResult
             except ProgExc as pe:
                 a.exc = pe.exc
             res.functions.update(it.calls)
+            a.global_writes = [w for w in module_writes(fp0) if w not in c.modifies]
+            ctx.prove(not a.global_writes, FRAME_LABEL, detail=", ".join(a.global_writes))
             if a.exc is None:
                 res.normal_paths += 1
                 if not res.canary_ok and ctx.feasible():
